@@ -217,6 +217,8 @@ def units(tier):
     wrap("C04.accumulate.AccumulateLine", unit_accumulate)
     wrap("C04.check_database.per_call_reset_frame", unit_check_database)
     wrap("C04.do_run.component_cache_invalidated", unit_do_run_tail)
+    from props import c04_tidy as TD
+    wrap("C04.tidy_model.rebinds_after_model_change", TD.unit_tidy_model)
     return us
 
 
